@@ -1,5 +1,6 @@
 import DigModel.Proofs.Retry
 import DigModel.Proofs.ProvApi
+import DigModel.Proofs.RootCauseProgram
 /-
   C07 — Failed executions contribute nothing and are retried.
 
@@ -113,6 +114,13 @@ theorem C07_failed_never_cached (p : Program) (w : Who) (f x : Nat) (r : ExitKin
 /-- non-vacuity: a value made by an execution does carry that execution's token -/
 example : (7, 3) ∈ (Val.sl [Val.tok 7 3 0 0, Val.zero 5]).toks := by decide
 
+/-- whole programs: the first failing execution of a constructor or decorator during an operation is the last thing
+    that runs (only callback events follow), there is no second failure, and it is the root cause the operation
+    reports (`engine_root`, see Props/C13) -/
+theorem C07_first_failure_is_reported (p : Program) : ∀ r ∈ (runProgram p).2, r.v ≠ .panicDig → r.v ≠ .fuel → Reported p.ctx r :=
+  runOps_reported p.ctx p.fns p.ops
+
+#print axioms C07_first_failure_is_reported
 #print axioms C07_failed_writes_nothing
 #print axioms C07_failed_never_delivered
 #print axioms C07_failed_never_cached
